@@ -17,6 +17,19 @@ from perception_eval.evaluation.result import object_result as or_mod
 from ..core import Ctx, Taps, close, guarded
 from ..gen import objects as O
 
+def _lib_of():
+    # library functions are called from the modules that define them (not through a name another module happens to import)
+    import perception_eval.evaluation.matching.objects_filter as m
+
+    return m
+
+
+def _lib_or():
+    import perception_eval.evaluation.result.object_result as m
+
+    return m
+
+
 LEVEL_TEXT = (
     "Held on every ROI-less pairing and every classification score computed under the monitor: get_object_results is tapped "
     "and, for ROI-less 2D inputs, its result is judged by a reference written from the statement (same camera, each object "
@@ -251,7 +264,7 @@ def run(ctx: Ctx) -> None:
                         idx += 1
                         ctx.begin_case("exhaustive", ei * len(sets) + gi, family=family, ests=[(str(c), u, l) for c, u, l in es], gts=[(str(c), u, l) for c, u, l in gs], uuid_first=uf)
                         try:
-                            res = mgr_mod.get_object_results(task, ests, gts, uuid_matching_first=uf)
+                            res = _lib_or().get_object_results(task, ests, gts, uuid_matching_first=uf)
                         except Exception as e:
                             ctx.violation(f"C11/pairing_raised:{type(e).__name__}", dict(family=family, ests=es, gts=gs, error=str(e)[:150]), tap="get_object_results")
                             continue
@@ -284,7 +297,7 @@ def run(ctx: Ctx) -> None:
                 # (the label policy governs geometric matching; a classification answer is right iff the labels are equal)
                 from perception_eval.evaluation.matching import MatchingLabelPolicy
 
-                res = mgr_mod.get_object_results(EvaluationTask.CLASSIFICATION2D, ests, gts, uuid_matching_first=uf, matching_label_policy=r.choice(list(MatchingLabelPolicy)))
+                res = _lib_or().get_object_results(EvaluationTask.CLASSIFICATION2D, ests, gts, uuid_matching_first=uf, matching_label_policy=r.choice(list(MatchingLabelPolicy)))
                 score_all(ctx, res, gts, family, labels[:3])
                 ctx.case((family, uf, "rnd", min(len(ests), 5), min(len(gts), 5)), nontrivial=bool(ests) and bool(gts))
 
@@ -306,7 +319,7 @@ def run(ctx: Ctx) -> None:
                     gts_spec = [(r.choice(cams), f"id{k}", r.choice(labels)) for k in range(n)]
                     ests_spec = [(c, u, l if r.random() < 0.6 else r.choice(labels)) for c, u, l in gts_spec if r.random() < 0.85]
                     ests, gts = build(ests_spec, family, True), build(gts_spec, family, False)
-                    res = mgr_mod.get_object_results(EvaluationTask.CLASSIFICATION2D, ests, gts, uuid_matching_first=r.random() < 0.5)
+                    res = _lib_or().get_object_results(EvaluationTask.CLASSIFICATION2D, ests, gts, uuid_matching_first=r.random() < 0.5)
                     rd = of_mod.divide_objects(res, tl)
                     nd = of_mod.divide_objects_to_num(gts, tl)
                     for l in tl:
@@ -347,9 +360,9 @@ def run(ctx: Ctx) -> None:
             ests, gts = build(ests_spec, "traffic_light", True, alias=r.random() < 0.5), build(gts_spec, "traffic_light", False)
             ctx.begin_case("frames", i, target=target, n=n)
             with ctx.case_guard("frames"):
-                ests_f = mgr_mod.filter_objects(ests, False, target_labels=cfg.target_labels)
-                gts_f = mgr_mod.filter_objects(gts, True, target_labels=cfg.target_labels)
-                res = mgr_mod.get_object_results(cfg.evaluation_task, ests_f, gts_f, target_labels=cfg.target_labels, uuid_matching_first=uf)
+                ests_f = _lib_of().filter_objects(ests, False, target_labels=cfg.target_labels)
+                gts_f = _lib_of().filter_objects(gts, True, target_labels=cfg.target_labels)
+                res = _lib_or().get_object_results(cfg.evaluation_task, ests_f, gts_f, target_labels=cfg.target_labels, uuid_matching_first=uf)
                 crit = CriticalObjectFilterConfig(evaluator_config=cfg, target_labels=target)
                 pf = PerceptionPassFailConfig(evaluator_config=cfg, target_labels=target)
                 fr = PerceptionFrameResult(res, FrameGroundTruth(100, "0", gts_f), cfg.metrics_config, crit, pf, 100, cfg.target_labels)
